@@ -232,6 +232,11 @@ def C10(tier, seed):
     res.violations += harness_crash_violations(h, "C10")
     res.add_stats(vlib.merge_stats(h["stats"]))
     res.violations += validate_stream(res, "Trace_Algebra", out, "removebase", "C10")
+    # reference creation on operands that earlier operations PRODUCED (merged paths, normalized, owned): systematic chains
+    h = vlib.run_harness(exe, ["session", "--mode", "chains", "--n", "2000" if tier == "thorough" else "450", "--seed", str(seed + 5), "--tier", tier], out, "c10chains", timeout=3000)
+    res.violations += harness_crash_violations(h, "C10")
+    res.add_stats(vlib.merge_stats(h["stats"]))
+    res.violations += validate_stream(res, "Trace_Session", out, "c10chains", "C10")
     if tier == "thorough": add_suite(res, "C10", out)
     res.coverage["rule"] = ("all ordered pairs (source, base) of a universe of absolute URIs: 2 schemes x 7 (thorough 17) authorities incl. user info / port / empty host / IPv4 / IPv6 / IPvFuture differing in one part x 15 (thorough 27) paths with every overlap pattern "
         "(prefix, equal, trailing empty segments, differing in the last segment only, ':' in the first segment, empty first segment, rootless, dot segments) x query on either side, both modes, both widths, default and recording manager; "
@@ -284,6 +289,11 @@ def _session(res, pid, tier, seed, out, also=()):
     res.violations += harness_crash_violations(h, pid)
     res.add_stats(vlib.merge_stats(h["stats"]))
     res.violations += validate_stream(res, "Trace_Session", out, "srandom", pid, also=also)
+    # systematic histories: the output of every producing operation handed to every consuming operation in every operand position
+    h = vlib.run_harness(exe, ["session", "--mode", "chains", "--n", "2000" if tier == "thorough" else "450", "--seed", str(seed), "--tier", tier], out, "schains", timeout=3000)
+    res.violations += harness_crash_violations(h, pid)
+    res.add_stats(vlib.merge_stats(h["stats"]))
+    res.violations += validate_stream(res, "Trace_Session", out, "schains", pid, also=also)
     res.violations += [dict(prop=pid, why="harness/driver disagreement with the session machine: " + v["why"], **{k: v[k] for k in v if k not in ("prop", "why")}) for v in []]
 
 def C07(tier, seed):
